@@ -684,16 +684,18 @@ def generate(tier, seed, frames):
                "label": {"k": "segments", "case": "same MAC and invoke ID on network %d, then the segment ack" % other_net}}
     # a device that files every I-Am it hears (what applications do): a damaged I-Am of a station -- every single-octet
     # substitution of its parameters -- followed by valid requests of that station, answered like anybody's
-    iam = frames["iAm"][0]
     pos0 = 4 + 2 + 4 + 2            # BVLL, NPCI (global broadcast: DNET/DLEN/hops), APDU type + service choice
     muts = []
-    for pos in range(pos0, len(iam)):
-        vals = range(256) if thorough else sorted({0, 1, 2, 3, 4, 5, 0x7f, 0x80, 0xff, iam[pos] ^ 1, iam[pos] ^ 0x80, rng.randrange(256)})
-        for v in vals:
-            if v != iam[pos]:
-                b = bytearray(iam)
-                b[pos] = v
-                muts.append(bytes(b))
+    for mx in (480, 1024, 50):      # (announcements whose max-APDU field is 01e0 / 0400 / 32: other values one octet away)
+        iam = wire(apdu_mod.IAmRequest(iAmDeviceIdentifier=("device", 77), maxAPDULengthAccepted=mx, segmentationSupported="noSegmentation",
+                                       vendorID=15), link="bcast", dadr=GlobalBroadcast())
+        for pos in range(pos0, len(iam)):
+            vals = range(256) if thorough else sorted({0, 1, 2, 3, 4, 5, 0x31, 0x7f, 0x80, 0xff, iam[pos] ^ 1, iam[pos] ^ 0x80, rng.randrange(256)})
+            for v in vals:
+                if v != iam[pos]:
+                    b = bytearray(iam)
+                    b[pos] = v
+                    muts.append(bytes(b))
     for b in muts:
         yield {"caching": True, "batch": [g(b, src=1, bc=True), {"d": rp_frame(1, 181).hex(), "src": 1, "role": "rp", "inv": 181, "bc": False},
                                           {"d": rp_frame(1, 182, sa=True).hex(), "src": 1, "role": "rp", "inv": 182, "bc": False},
